@@ -44,6 +44,11 @@ def directive (ed : Ed) (ln : Bytes) : Ed :=
     (match ed.findFile p with
      | some f => { ed.putFile { f with mtime := ed.clock + 1 } with clock := ed.clock + 1 }
      | none => { ed with clock := ed.clock + 1 })
+  | ["@@epoch", a] =>
+    let p := Ex.strOf a
+    (match ed.findFile p with
+     | some f => ed.putFile { f with mtime := 0 }
+     | none => ed)
   | ["@@writefile", a, b] =>
     { ed.putFile ⟨Ex.strOf a, hexBytes b, ed.clock + 1⟩ with clock := ed.clock + 1 }
   | ["@@rm", a] => { ed with files := ed.files.filter (fun f => f.path != Ex.strOf a) }
